@@ -11,7 +11,7 @@ JOBS = [
     dict(job=('specs.tr_units', 'w_op_recording', {}), props=['C04', 'C05', 'C09', 'C17', 'C18'], cases='w_op'),
     dict(job=('specs.tr_units', 'w_op_passthrough', {'mode': 'disabled'}), props=['C04']),
     dict(job=('specs.tr_units', 'w_op_playback', {}), props=['C01', 'C02', 'C03']),
-    dict(job=('specs.tr_units', 'play', {}), props=['C01', 'C02', 'C03', 'C09']),
+    dict(job=('specs.tr_units', 'play', {}), props=['C01', 'C02', 'C03', 'C09', 'C08', 'C19']),
     # ---- small public / helper methods of the recorder (function-level contracts, every state under the class invariant)
     dict(job=('specs.tr_small', 'discard_recording', {}), props=['C04', 'C05', 'C09', 'C17']),
     dict(job=('specs.tr_small', 'force_sample_recording', {}), props=['C04', 'C09', 'C17']),
@@ -45,10 +45,12 @@ JOBS = [
     dict(job=('specs.equalizer', 'within_worker', {'mode': 'inprocess'}), props=['C08']),
     # ---- cassettes: in-memory, file-based, MemoryRecording, TapeCassette base methods
     dict(job=('specs.cassettes', 'in_memory_roundtrip', {}), props=['C07', 'C11', 'C02', 'C09', 'C05']),
+    dict(job=('specs.cassettes', 'in_memory_get', {}), props=['C07', 'C11']),
     dict(job=('specs.cassettes', 'memory_recording', {}), props=['C07', 'C11', 'C01', 'C05', 'C18']),
     dict(job=('specs.cassettes', 'in_memory_create', {}), props=['C07', 'C10', 'C04']),
     dict(job=('specs.cassettes', 'in_memory_iter', {}), props=['C10', 'C19']),
     dict(job=('specs.cassettes', 'category_units', {}), props=['C10', 'C19']),
+    dict(job=('specs.cassettes', 'pickle_copy_unit', {}), props=['C11', 'C01', 'C07', 'C04']),
     dict(job=('specs.cassettes', 'file_roundtrip', {}), props=['C07', 'C11', 'C05']),
     dict(job=('specs.cassettes', 'file_iter', {}), props=['C10', 'C19']),
     dict(job=('specs.cassettes', 'file_create', {}), props=['C07', 'C10', 'C04']),
@@ -75,8 +77,8 @@ JOBS = [
     dict(job=('specs.keys', 'output_key', {}), props=['C03', 'C06']),
     dict(job=('specs.keys', 'format_alias', {}), props=['C06']),
     # ---- playback/tape_cassette.py: metadata filter matching
-    dict(job=('specs.matcher', 'match_value', {}), props=['C14']),
-    dict(job=('specs.matcher', 'match_all', {}), props=['C14']),
+    dict(job=('specs.matcher', 'match_value', {}), props=['C14', 'C10']),
+    dict(job=('specs.matcher', 'match_all', {}), props=['C14', 'C10']),
 ]
 
 # case splits of the precondition (each case is a separate job; together they cover the whole precondition -- the covering is itself
